@@ -555,8 +555,7 @@ Theorem nearest_declaration : forall n ls l,
   = match lookup_decl n (rev (l_decls l)) with Some p => Some p | None => lookup_decl n (collect ls) end.
 Proof. intros. rewrite collect_app. apply lookup_fold_upsert. Qed.
 
-Theorem nearest_config : forall ls l,
-  nearest_cfg (ls ++ [l]) = match l_cfg l with Some g => g | None => nearest_cfg ls end.
+Theorem nearest_config : forall ls l, nearest_cfg (ls ++ [l]) = step_cfg (nearest_cfg ls) l.
 Proof. intros. unfold nearest_cfg. now rewrite fold_left_app. Qed.
 
 (* a re-declaration keeps the position of the first declaration; every name occurs once *)
@@ -602,7 +601,8 @@ Proof.
   apply H. constructor.
 Qed.
 
-(* the main theorem for a class given by its hierarchy *)
+(* the main theorem for a class given by its hierarchy (the Config by Python's attribute lookup; that the
+   generated code works with exactly this Config is KeyCfg.impl_cfg_nearest) *)
 Theorem impl_eq_keymodel_hier : forall ls discr d,
   impl_from_dict (class_of ls discr) d = Ok (keymodel (class_of ls discr) d).
 Proof. intros. apply impl_eq_keymodel. Qed.
